@@ -104,7 +104,11 @@ def model_line(case):
         from .. import c10_worker
 
         return "C10 width " + wire.line([None if v is None else len(str(v)) for v in c10_worker.unj(case["values"])])
-    return "C10 extract " + wire.line(case["fields"], case["data"])
+    from .. import c10_worker
+
+    # the helper looks exact strings up: of a dictionary with keys of other kinds it can find the items whose key equals a string
+    data = c10_worker.plain_dict(case["data"])
+    return "C10 extract " + wire.line(case["fields"], {sites.key_id(k): v for k, v in data.items() if sites.key_id(k) is not None})
 
 
 _SHADOW = None
@@ -189,7 +193,10 @@ def judge(c, res):
         return None if res.get("ok") == want else "display width is not the longest rendered non-null value (floor 4)"
     if c.get("fields_arg", "tuple") != "tuple" or c.get("data_arg"):
         return None if "raises" in res else "a malformed argument did not raise a Python exception"
-    want = [c["data"].get(f) if isinstance(f, str) else None for f in c["fields"]]
+    from .. import c10_worker
+
+    data = c10_worker.plain_dict(c["data"])
+    want = [data.get(f) if isinstance(f, str) else None for f in c["fields"]]
     if "raises" in res or res["ok"] != json.loads(json.dumps(want)):
         return "extracted fields differ from the dictionary's values / null"
     return None
@@ -252,6 +259,8 @@ def evaluate(ctx, cases):
             continue
         ctx.case(c, nontrivial=bool(c.get("rows") or c.get("values") or c.get("fields")))
         ctx.hit("fn:" + c["fn"])
+        if c["fn"] == "extract" and isinstance(c.get("data"), dict) and "__items__" in c["data"]:
+            ctx.hit("extract:dictionary-with-keys-that-are-not-text")
         if c["fn"] == "collect":
             ctx.hit("cols:%d" % min(len(c["cols"]), 4))
             ctx.hit("malformed-arg" if not well_formed_args(c) else "well-formed")
@@ -500,6 +509,9 @@ def run_sites(ctx):
     evaluate_sites(ctx, sites.boundary_public())
     evaluate_sites(ctx, sites.random_public(ctx.rng, ctx.scale(2500, 60000)))
     evaluate_sites(ctx, sites.seeded_corpus())
+    evaluate_sites(ctx, sites.exhaustive_keys())
+    ctx.note("call_site_exhaustive_keys", "Row(dict) through a class for every field tuple of length 0..2 over '1','None','x' x every dictionary over the keys '1', 1, 'None', None with at most three entries in every insertion order")
+    evaluate_sites(ctx, [sites.keys_seq(ctx.rng, "%d_%d" % (ctx.seed, k)) for k in range(ctx.scale(600, 10000))])
     nseq = ctx.scale(2000, 40000)
     for start in range(0, nseq, 3000):
         evaluate_sites(ctx, [sites.random_seq(ctx.rng, "%d_%d" % (ctx.seed, start + k)) for k in range(min(3000, nseq - start))])
@@ -556,6 +568,10 @@ def random_cases(rng, n):
             data = {k: rng.choice([0, None, "v", [1], 2.5]) for k in rng.sample(keys, rng.randint(0, 5))}
             fields = [rng.choice(keys + ["zz"]) for _ in range(rng.randint(0, 6))]
             c = {"fn": "extract", "data": data, "fields": fields}
+            if rng.random() < 0.3:
+                # keys that are not text next to (or instead of) the text they print; the fields are spelt like them
+                fields = [rng.choice([t for t, _ in sites.KEY_TWINS] + ["zz"]) for _ in range(rng.randint(0, 6))]
+                c = {"fn": "extract", "data": {"__items__": sites._items_for(rng, fields, ["zz", "other"])}, "fields": fields}
             if rng.random() < 0.1:
                 c["fields_arg"] = rng.choice(["list", "none"])
             elif rng.random() < 0.08:
@@ -608,6 +624,7 @@ def intensify(ctx):
     evaluate(ctx, random_cases(ctx.rng, 20000))
     evaluate_sites(ctx, sites.random_public(ctx.rng, 5000))
     evaluate_sites(ctx, [sites.random_seq(ctx.rng, "i%d_%d" % (ctx.seed, k)) for k in range(3000)])
+    evaluate_sites(ctx, [sites.keys_seq(ctx.rng, "i%d_%d" % (ctx.seed, k)) for k in range(2000)])
 
 
 def replay(ctx, case):
